@@ -147,7 +147,9 @@ func runCheck(P *Prog, prop, tier string, seed int, writeBase bool, t0 time.Time
 		timeout = 60
 	}
 	concProp = prop
+	tEnc := time.Now()
 	encs := encodeAll(P)
+	fmt.Fprintf(os.Stderr, "govc: load %.1fs, encode %.1fs\n", tEnc.Sub(t0).Seconds(), time.Since(tEnc).Seconds())
 	extra := extraChecks(P, prop) // non-SSA obligation generators (tables, walker types, ...)
 	encs = append(encs, extra...)
 	var jobs []job
@@ -189,6 +191,12 @@ func runCheck(P *Prog, prop, tier string, seed int, writeBase bool, t0 time.Time
 				o.Budget = 2
 			}
 		}
+	}
+	// vacuity guards: (1) the background theory of every encoding (declarations, axioms, trusted facts) must not be
+	// contradictory; (2) thorough tier: in every function at least one return must not be provably unreachable.
+	if msg := vacuityGuard(encs, prop, tier); msg != "" {
+		fmt.Println("ENGINE-ERROR: vacuity guard:", msg)
+		return 2
 	}
 	vs := solveAll(jobs, timeout, 16)
 	if tier == "thorough" {
@@ -580,4 +588,55 @@ func cmdReplay(args []string) {
 			os.Exit(1)
 		}
 	}
+}
+
+func vacuityGuard(encs []*Enc, prop, tier string) string {
+	var jobs []job
+	nb := 0
+	for _, e := range encs {
+		if e.unsupported != "" {
+			continue
+		}
+		used := false
+		for _, o := range e.obls {
+			if hasProp(o.Props, prop) {
+				used = true
+				break
+			}
+		}
+		if !used {
+			continue
+		}
+		// background only: no body lines (quick tier: a rotating sample of the encodings; thorough: all)
+		nb++
+		if tier == "thorough" || nb%8 == 0 {
+			jobs = append(jobs, job{e, &Obl{Name: e.key + "/vacuity/background", Class: "vacuity", Prefix: 0, Reach: TTrue, Goal: TFalse, Func: e.key, Blk: -1, Budget: 1}})
+		}
+		if tier == "thorough" {
+			for i, c := range e.covers {
+				jobs = append(jobs, job{e, &Obl{Name: fmt.Sprintf("%s/vacuity/return#%d", e.key, i), Class: "vacuity-return", Prefix: c.prefix, Reach: c.reach, Goal: TFalse, Func: e.key, Blk: c.blk, Budget: 3}})
+			}
+		}
+	}
+	vs := solveAll(jobs, 3, 16)
+	reachable := map[string]bool{}
+	hasRet := map[string]bool{}
+	for _, v := range vs {
+		if v.Obl.Class == "vacuity" {
+			if v.Status == "discharged" {
+				return "contradictory background theory in " + v.Obl.Func
+			}
+			continue
+		}
+		hasRet[v.Obl.Func] = true
+		if v.Status != "discharged" {
+			reachable[v.Obl.Func] = true
+		}
+	}
+	for f := range hasRet {
+		if !reachable[f] {
+			return "every return of " + f + " is provably unreachable under its contract (contradictory requires or callee contracts?)"
+		}
+	}
+	return ""
 }
